@@ -25,7 +25,7 @@ REQUIRED = {"pack_bytes": 10000, "unpack_roundtrip": 10000, "short_buffer_refuse
             "onair_frames_vs_reference": 200, "tmrh_reassembly": 200, "caller_header_type": 200,
             "caller_header_type_routed": 10, "session_frames_vs_reference": 1000,
             "result_vs_accepted_frames": 800}
-BUDGET = {"quick": 150, "thorough": 400}
+BUDGET = {"quick": 480, "thorough": 900}
 
 
 def gen_cases(ctx):
